@@ -371,7 +371,7 @@ class TT():
         Returns:
             numpy.array: the full tensor in numpy.
         """
-        return self.full().resolve_conj().cpu().numpy()
+        return self.full().resolve_conj().resolve_neg().cpu().numpy()
 
     def __repr__(self):
         """
